@@ -17,7 +17,8 @@ def obligations(tier):
     to = 120 if not th else 900
     R = ('sym_real_env.c',)
     for (mm, nlv) in ([(2, 1), (3, 1), (2, 2)] if not th else [(2, 1), (3, 1), (2, 2), (3, 2)]):
-        obs.append(Ob(id=f'betas/m{mm}nlv{nlv}', harness='C04/betas.c', tus=T, defs={'HP_M': mm, 'HP_NLV': nlv}, engine='real', unwind=8, timeout=to, clause='coefficient form = score-based predictor', stubs=R, real={'nomissing': True}))
+        for pf in (0, 1):
+            obs.append(Ob(id=f'betas/m{mm}nlv{nlv}/{"reused_output" if pf else "fresh_output"}', harness='C04/betas.c', tus=T, defs={'HP_M': mm, 'HP_NLV': nlv, 'HP_PREFILL': pf}, engine='real', unwind=8, timeout=to, clause='coefficient form = score-based predictor', stubs=R, real={'nomissing': True}))
     for (n, mm) in ([(2, 2), (3, 2)] if not th else [(2, 2), (3, 2), (4, 3)]):
         obs.append(Ob(id=f'rss/{n}x{mm}', harness='C04/rss.c', tus=T, defs={'HP_WHICH': 0, 'HP_N': n, 'HP_M': mm}, engine='real', unwind=8, timeout=to, clause='RSS never increases when a latent variable is added',
                       remove=('calcConvergence',), stubs=R, real={'nomissing': True}))
